@@ -11,6 +11,8 @@ arbitrary linear ordered field `K`.
 -/
 namespace M3d.Tf
 
+set_option linter.unusedSectionVars false
+
 section Field
 variable {K : Type} [Field K]
 
@@ -84,9 +86,102 @@ theorem M3.det_ne_zero_of_ortho (m : M3 K) (h : m.transpose.mul m = M3.one) : m.
   rw [h0] at h1
   simp at h1
 
-end Field
+/-! ### matrix algebra used for rotations -/
 
-set_option linter.unusedSectionVars false
+theorem M3.mul_assoc (a b c : M3 K) : (a.mul b).mul c = a.mul (b.mul c) := by
+  ext <;> simp only [M3.mul] <;> ring
+
+theorem M3.one_mul (a : M3 K) : M3.one.mul a = a := by
+  ext <;> simp only [M3.mul, M3.one] <;> ring
+
+theorem M3.mul_one (a : M3 K) : a.mul M3.one = a := by
+  ext <;> simp only [M3.mul, M3.one] <;> ring
+
+theorem M3.transpose_mul (a b : M3 K) : (a.mul b).transpose = b.transpose.mul a.transpose := by
+  ext <;> simp only [M3.mul, M3.transpose] <;> ring
+
+theorem M3.transpose_transpose (a : M3 K) : a.transpose.transpose = a := rfl
+
+theorem M3.det_mul (a b : M3 K) : (a.mul b).det = a.det * b.det := by
+  simp only [M3.det, M3.mul]; ring
+
+theorem M3.det_transpose (a : M3 K) : a.transpose.det = a.det := by
+  simp only [M3.det, M3.transpose]; ring
+
+theorem M3.det_one : (M3.one : M3 K).det = 1 := by simp [M3.det, M3.one]
+
+/-- A left-orthogonal square matrix is right-orthogonal. -/
+theorem M3.mul_transpose_of_ortho (b : M3 K) (h : b.transpose.mul b = M3.one) : b.mul b.transpose = M3.one := by
+  have hd := M3.det_ne_zero_of_ortho b h
+  have e : b.transpose = b.inverse := by
+    calc b.transpose = b.transpose.mul M3.one := (M3.mul_one _).symm
+      _ = b.transpose.mul (b.mul b.inverse) := by rw [M3.mul_inverse b hd]
+      _ = (b.transpose.mul b).mul b.inverse := (M3.mul_assoc _ _ _).symm
+      _ = b.inverse := by rw [h, M3.one_mul]
+  rw [e]
+  exact M3.mul_inverse b hd
+
+theorem rotX_ortho (c s : K) (h : c * c + s * s = 1) :
+    (rotX c s).transpose.mul (rotX c s) = M3.one ∧ (rotX c s).det = 1 := by
+  constructor
+  · ext <;> simp only [M3.mul, M3.transpose, rotX, M3.one] <;> first | ring1 | linear_combination h
+  · simp only [M3.det, rotX]; linear_combination h
+
+/-- `B·X·Bᵀ` is orthogonal with determinant 1 when `B` is orthogonal and `X` is a rotation about the first axis. -/
+theorem conj_ortho (b x : M3 K) (hb : b.transpose.mul b = M3.one) (hx : x.transpose.mul x = M3.one) (hdx : x.det = 1) :
+    ((b.mul x).mul b.transpose).transpose.mul ((b.mul x).mul b.transpose) = M3.one ∧
+      ((b.mul x).mul b.transpose).det = 1 := by
+  have hb' := M3.mul_transpose_of_ortho b hb
+  constructor
+  · rw [M3.transpose_mul, M3.transpose_mul, M3.transpose_transpose]
+    calc (b.mul (x.transpose.mul b.transpose)).mul ((b.mul x).mul b.transpose)
+        = b.mul (x.transpose.mul ((b.transpose.mul b).mul (x.mul b.transpose))) := by
+          simp only [M3.mul_assoc]
+      _ = b.mul ((x.transpose.mul x).mul b.transpose) := by rw [hb, M3.one_mul, M3.mul_assoc]
+      _ = M3.one := by rw [hx, M3.one_mul, hb']
+  · rw [M3.det_mul, M3.det_mul, M3.det_transpose, hdx]
+    have h1 := M3.det_transpose_mul b
+    rw [hb, M3.det_one] at h1
+    linear_combination -h1
+
+theorem ofColumns_ortho (a b1 b2 : V3 K) (haa : a.dot a = 1) (h11 : b1.dot b1 = 1) (h22 : b2.dot b2 = 1)
+    (ha1 : a.dot b1 = 0) (ha2 : a.dot b2 = 0) (h12 : b1.dot b2 = 0) :
+    (M3.ofColumns a b1 b2).transpose.mul (M3.ofColumns a b1 b2) = M3.one := by
+  simp only [V3.dot] at *
+  ext <;> simp only [M3.mul, M3.transpose, M3.ofColumns, M3.one]
+  · linear_combination haa
+  · linear_combination ha1
+  · linear_combination ha2
+  · linear_combination ha1
+  · linear_combination h11
+  · linear_combination h12
+  · linear_combination ha2
+  · linear_combination h12
+  · linear_combination h22
+
+/-- `NewMatrix3Rotation` in any orthonormal basis `(axis, b1, b2)` with `c² + s² = 1` is orthogonal, `det = 1`,
+and fixes the axis. -/
+theorem rotationIn_ortho (a b1 b2 : V3 K) (c s : K) (haa : a.dot a = 1) (h11 : b1.dot b1 = 1) (h22 : b2.dot b2 = 1)
+    (ha1 : a.dot b1 = 0) (ha2 : a.dot b2 = 0) (h12 : b1.dot b2 = 0) (hcs : c * c + s * s = 1) :
+    (rotationIn a b1 b2 c s).transpose.mul (rotationIn a b1 b2 c s) = M3.one ∧ (rotationIn a b1 b2 c s).det = 1 ∧
+      (rotationIn a b1 b2 c s).mulColumn a = a := by
+  have hb := ofColumns_ortho a b1 b2 haa h11 h22 ha1 ha2 h12
+  obtain ⟨hx, hdx⟩ := rotX_ortho c s hcs
+  obtain ⟨h1, h2⟩ := conj_ortho _ _ hb hx hdx
+  refine ⟨h1, h2, ?_⟩
+  simp only [V3.dot] at haa ha1 ha2
+  ext <;> simp only [rotationIn, M3.mul, M3.transpose, M3.ofColumns, rotX, M3.mulColumn]
+  · linear_combination a.x * haa + (b1.x * c - b2.x * s) * ha1 + (b1.x * s + b2.x * c) * ha2
+  · linear_combination a.y * haa + (b1.y * c - b2.y * s) * ha1 + (b1.y * s + b2.y * c) * ha2
+  · linear_combination a.z * haa + (b1.z * c - b2.z * s) * ha1 + (b1.z * s + b2.z * c) * ha2
+
+theorem M2.rotation_ortho (c s : K) (h : c * c + s * s = 1) :
+    (M2.rotation c s).transpose.mul (M2.rotation c s) = M2.one ∧ (M2.rotation c s).det = 1 := by
+  constructor
+  · ext <;> simp only [M2.mul, M2.transpose, M2.rotation, M2.one] <;> first | ring1 | linear_combination h
+  · simp only [M2.det, M2.rotation]; linear_combination h
+
+end Field
 
 section Ordered
 variable {K : Type} [Field K] [LinearOrder K] [IsStrictOrderedRing K]
@@ -247,8 +342,12 @@ theorem mx_eq_max (a b : K) : mx a b = max a b := (max_def a b).symm
 def Box (lo hi p : V3 K) : Prop :=
   (lo.x ≤ p.x ∧ p.x ≤ hi.x) ∧ (lo.y ≤ p.y ∧ p.y ≤ hi.y) ∧ (lo.z ≤ p.z ∧ p.z ≤ hi.z)
 
+theorem V3.beq_iff (a b : V3 K) : a.beq b = true ↔ a = b := by
+  simp only [V3.beq, Bool.and_eq_true, beq_iff_eq, V3.ext_iff]
+  tauto
+
 theorem inBounds_iff (c lo hi : V3 K) : inBounds c lo hi = true ↔ Box lo hi c := by
-  simp only [inBounds, Bool.and_eq_true, decide_eq_true_eq, V3.ext_iff, V3.min, V3.max, mn_eq_min, mx_eq_max,
+  simp only [inBounds, Bool.and_eq_true, V3.beq_iff, V3.ext_iff, V3.min, V3.max, mn_eq_min, mx_eq_max,
     min_eq_right_iff, max_eq_right_iff, Box]
   tauto
 
@@ -665,6 +764,95 @@ theorem pinch1_mono (powF : K → K) (hp : PowLike powF)
           · linarith
           · rw [a2, b2]; exact hm t u a1 htu hu1
         nlinarith
+
+/-! ### `OrthoBasis` and `NewMatrix3Rotation` -/
+
+theorem V3.normalize_unit (sqrtF : K → K) (v : V3 K) (hv : 0 < v.normSq)
+    (hs : ∀ x, 0 < x → sqrtF x * sqrtF x = x) : (v.normalize sqrtF).dot (v.normalize sqrtF) = 1 := by
+  have hs' := hs _ hv
+  have h0 : sqrtF v.normSq ≠ 0 := by
+    intro h; rw [h, zero_mul] at hs'; exact (ne_of_gt hv) hs'.symm
+  unfold V3.normalize
+  generalize sqrtF v.normSq = r at hs' h0 ⊢
+  simp only [V3.normSq, V3.scale, V3.dot] at hs' ⊢
+  have : (v.x * v.x + v.y * v.y + v.z * v.z) * (1 / r * (1 / r)) = 1 := by
+    rw [← hs']; field_simp
+  linear_combination this
+
+theorem V3.dot_normalize (sqrtF : K → K) (v w : V3 K) (h : v.dot w = 0) :
+    (v.normalize sqrtF).dot (w.normalize sqrtF) = 0 := by
+  simp only [V3.normalize, V3.scale, V3.dot] at h ⊢
+  linear_combination (1 / sqrtF v.normSq) * (1 / sqrtF w.normSq) * h
+
+theorem V3.dot_normalize_right (sqrtF : K → K) (v w : V3 K) (h : v.dot w = 0) :
+    v.dot (w.normalize sqrtF) = 0 := by
+  simp only [V3.normalize, V3.scale, V3.dot] at h ⊢
+  linear_combination (1 / sqrtF w.normSq) * h
+
+/-- The two vectors `OrthoBasis` normalises: some `u ⟂ c`, `u ≠ 0`, and `u × c`. -/
+theorem orthoBasis_raw (sqrtF : K → K) (c : V3 K) (hc : c.normSq = 1) :
+    ∃ u : V3 K, u.dot c = 0 ∧ 0 < u.normSq ∧
+      orthoBasis sqrtF c = (u.normalize sqrtF,
+        (⟨u.y * c.z - u.z * c.y, u.z * c.x - u.x * c.z, u.x * c.y - u.y * c.x⟩ : V3 K).normalize sqrtF) := by
+  simp only [V3.normSq] at hc
+  by_cases h1 : |c.y| < |c.x| ∧ |c.z| < |c.x|
+  · have hx : 0 < |c.x| := lt_of_le_of_lt (abs_nonneg _) h1.1
+    have hx0 : c.x ≠ 0 := abs_pos.mp hx
+    refine ⟨⟨c.y / |c.x|, (-c.x) / |c.x|, 0⟩, ?_, ?_, ?_⟩
+    · simp only [V3.dot]; field_simp; ring
+    · simp only [V3.normSq]
+      have : 0 < (-c.x) / |c.x| * ((-c.x) / |c.x|) := mul_self_pos.mpr (div_ne_zero (neg_ne_zero.mpr hx0) (ne_of_gt hx))
+      nlinarith [mul_self_nonneg (c.y / |c.x|)]
+    · simp only [orthoBasis, absS_eq_abs, if_pos h1]
+  · have hk : 0 < (if |c.z| < |c.y| then |c.y| else |c.z|) ∧
+        (c.y ≠ 0 ∨ c.z ≠ 0) := by
+      by_cases h2 : |c.z| < |c.y|
+      · have : 0 < |c.y| := lt_of_le_of_lt (abs_nonneg _) h2
+        exact ⟨by rw [if_pos h2]; exact this, Or.inl (abs_pos.mp this)⟩
+      · rw [if_neg h2]
+        have hzy : |c.y| ≤ |c.z| := not_lt.mp h2
+        have hz : 0 < |c.z| := by
+          rcases (abs_nonneg c.z).lt_or_eq with h | h
+          · exact h
+          · exfalso
+            have hz0 : c.z = 0 := abs_eq_zero.mp h.symm
+            have hy0 : c.y = 0 := abs_eq_zero.mp (le_antisymm (by rw [← h] at hzy; exact hzy) (abs_nonneg _))
+            rw [hy0, hz0] at hc h1
+            have hx1 : c.x * c.x = 1 := by linarith
+            have : 0 < |c.x| := by
+              apply abs_pos.mpr; intro h0; rw [h0] at hx1; simp at hx1
+            exact h1 ⟨by simpa using this, by simpa using this⟩
+        exact ⟨hz, Or.inr (abs_pos.mp hz)⟩
+    obtain ⟨hkpos, hyz⟩ := hk
+    generalize hkdef : (if |c.z| < |c.y| then |c.y| else |c.z|) = k at hkpos
+    have hk0 : k ≠ 0 := ne_of_gt hkpos
+    refine ⟨⟨0, c.z / k, (-c.y) / k⟩, ?_, ?_, ?_⟩
+    · simp only [V3.dot]; field_simp; ring
+    · simp only [V3.normSq]
+      rcases hyz with hy | hz
+      · have : 0 < (-c.y) / k * ((-c.y) / k) := mul_self_pos.mpr (div_ne_zero (neg_ne_zero.mpr hy) hk0)
+        nlinarith [mul_self_nonneg (c.z / k)]
+      · have : 0 < c.z / k * (c.z / k) := mul_self_pos.mpr (div_ne_zero hz hk0)
+        nlinarith [mul_self_nonneg ((-c.y) / k)]
+    · simp only [orthoBasis, absS_eq_abs, if_neg h1, hkdef]
+
+/-- **`OrthoBasis` of a unit vector completes it to an orthonormal basis** (given a square-root function). -/
+theorem orthoBasis_orthonormal (sqrtF : K → K) (hs : ∀ x, 0 < x → sqrtF x * sqrtF x = x) (c : V3 K)
+    (hc : c.normSq = 1) :
+    let b := orthoBasis sqrtF c
+    b.1.dot b.1 = 1 ∧ b.2.dot b.2 = 1 ∧ c.dot b.1 = 0 ∧ c.dot b.2 = 0 ∧ b.1.dot b.2 = 0 := by
+  obtain ⟨u, huc, hu, e⟩ := orthoBasis_raw sqrtF c hc
+  simp only [e]
+  have hcross : (⟨u.y * c.z - u.z * c.y, u.z * c.x - u.x * c.z, u.x * c.y - u.y * c.x⟩ : V3 K).normSq = u.normSq := by
+    simp only [V3.normSq, V3.dot] at hc huc ⊢
+    linear_combination (u.x * u.x + u.y * u.y + u.z * u.z) * hc - (u.x * c.x + u.y * c.y + u.z * c.z) * huc
+  refine ⟨V3.normalize_unit sqrtF u hu hs, V3.normalize_unit sqrtF _ (by rw [hcross]; exact hu) hs, ?_, ?_, ?_⟩
+  · apply V3.dot_normalize_right
+    simp only [V3.dot] at huc ⊢; linear_combination huc
+  · apply V3.dot_normalize_right
+    simp only [V3.dot]; ring
+  · apply V3.dot_normalize
+    simp only [V3.dot]; ring
 
 end Ordered
 end M3d.Tf
